@@ -156,7 +156,7 @@ def rule_R4(ck):
             block = sh.mk(I.module_get("types", "CodeBlock"), None, None, [asg])
             data = I.call_method(comp, "compile_block", [state, block, OLD])
             wait = I.module_get("deferred", "wait")
-            return I.call(wait, [data], {}), list(calls)
+            return I.call(wait, [data], {}), list(calls), val, state
         for p in I.explore(thunk):
             cell = p.cells[N]
             errs = [e[2] for e in p.reported()]
@@ -164,6 +164,9 @@ def rule_R4(ck):
             if not base_set:
                 if p.kind != "return" or p.value[0] != b"" or len(p.value[1]) != 1:
                     ck.violation(where, f"a leading '. = X' with no base set must set the base and emit nothing; got {p.value!r}", construct=". = as base")
+                elif not (len(p.value[1][0]) >= 2 and p.value[1][0][0] is p.value[2] and isinstance(p.value[1][0][1], dict) and p.value[1][0][1].get("link_base") is p.value[3]["link_base"]):
+                    ck.violation(where, f"a leading '. = X' calls set_link_address with {tuple(type(x).__name__ if not isinstance(x, Rec) else x.cls.name for x in p.value[1][0])}; "
+                                        "expected (the unevaluated expression X, the statement's state) - the same contract '.link X' uses", construct=". = hands (X, state) to set_link_address")
                 continue
             if p.kind == "return" and p.value[1]:
                 ck.violation(where, "'. = X' after the base is set tries to set the base again", construct=". = dispatch")
